@@ -9,7 +9,7 @@ NOARG = ["DOWNARROW", "DOWN", "LEFTARROW", "LEFT", "RIGHTARROW", "RIGHT", "UPARR
          "PAGEUP", "PAGEDOWN", "PRINTSCREEN", "SCROLLLOCK", "SPACE", "TAB", "FN", "ENTER"]
 FLIP_MOD = ["CTRL-ALT", "CTRL-SHIFT", "ALT-SHIFT", "ALT-GUI", "GUI-SHIFT"]
 UNKNOWN = ["FOO", "STRNG", "DELAYY", "HOLD", "RELEASE", "WAIT_FOR_BUTTON_PRESS", "ATTACKMODE", "DEFINE", "STRING_DELAY",
-           "LED_R", "xyzzy", "ALTT", "AL", "ÉCRIRE", "ſtring2", "IF", "WHILE", "FUNC", "ELSE", "IGNORE"]
+           "LED_R", "xyzzy", "ALTT", "AL", "ÉCRIRE", "ſtring2", "IF", "WHILE", "FUNC", "ELSE", "IGNORE", "REMOTE", "REM_BLOCK", "remap", "STRINGS", "DELAY_MS"]
 CHARS = list("abcxyzABZ019 !#%&*+,-./:;<=>?@[]^_{|}~()\"'$\\") + ["é", "ß", "ǆ", "İ", "ı", "λ", "Ж", "中", "😀", " ", "٣", "²", "½", " "]
 NAMES = ["a", "b", "i", "j", "n", "x", "count", "ab", "abc", "a1", "_t", "idx", "Tx", "FAL", "hello", "hell"]
 OPS_MATH = ["+", "-", "*", "/", "//", "%", "^"]
